@@ -349,6 +349,10 @@ func (w *World) execLongForm(stepIdx int, st *Step) {
 		mustReject("did-url-tail", long+tail)
 	}
 	mustReject("did-url-head", " "+long)
+	// empty segments: further delimiters between the suffix and the initial state, after the initial state
+	for _, v := range []string{short + "::" + state, short + ":::" + state, short + ":" + state + ":", short + ":" + state + "::", short + ": :" + state} {
+		mustReject("empty-segment", v)
+	}
 	// the handler's own namespace (with and without its colon) spliced into the DID after the leading one: a parser that removes
 	// or searches for the namespace anywhere in the string sees the genuine DID again
 	for _, at := range []int{len(ns) + 2, len(ns) + 1 + len(suffix)/2, len(short), len(short) + 2, len(short) + 1 + len(state)/2, len(long) - 1} {
